@@ -62,3 +62,86 @@ Example c14_nonvacuous :
   = Ok (mk Z {| k_typ := 1; k_cap := 5; k_opt := 0; k_ord := false; k_err := Some 7%N; k_ppf := Some 1%N |} [9; 1; 2],
         RLog [1; 2; 3]).
 Proof. vm_compute. reflexivity. Qed.
+
+(* ---- the other closures (validity, presentation, equality, unmarshal,
+        marshal, evaluator): WHO decides.  Closures are arbitrary functions. ---- *)
+From Stackage Require Import Policy.
+
+(* an installed closure decides; the answer is the closure's own answer *)
+Theorem c14_closure_dispatch :
+  forall (S R : Type) (vp : N -> S -> option N) (rp : N -> S -> R) (ep : N -> S -> S -> option N)
+         (up : N -> R * option N) (mp : N -> R -> option N) (vl : N -> R -> R * option N)
+         (c : pcfg) (s o : S) (f : N) (x : R),
+    (p_vpf c = Some f -> Stack_Valid S vp c s = (match vp f s with Some _ => Some e_invalid | None => None end) /\
+                         Cond_Valid S vp c s = VClosure (vp f s)) /\
+    (p_eqf c = Some f -> Stack_IsEqual S ep c s o = EqClosure (ep f s o) /\ Cond_IsEqual S ep c s o = EqClosure (ep f s o)) /\
+    (p_umf c = Some f -> Stack_Unmarshal R up c = UClosure (fst (up f)) (snd (up f)) /\
+                         Cond_Unmarshal R up c = UClosure (fst (up f)) (snd (up f))) /\
+    (p_maf c = Some f -> Stack_Marshal R mp c x = MClosure (mp f x)) /\
+    (p_evl c = Some f -> Cond_Evaluate R vl c x = EvClosure (fst (vl f x)) (snd (vl f x))) /\
+    (p_rpf c = Some f -> stack_valid S vp c s = true -> p_kind c <> 0%N -> p_kind c <> c_basic ->
+                         Stack_String S R vp rp c s = ByClosure (rp f s)).
+Proof.
+  intros. unfold Stack_Valid, stack_valid, Cond_Valid, Stack_IsEqual, Cond_IsEqual, Stack_Unmarshal, Cond_Unmarshal,
+    Stack_Marshal, Cond_Evaluate, Stack_String, stack_valid.
+  repeat match goal with |- _ /\ _ => split end; intros E; rewrite ?E.
+  - split; [destruct (vp f s); reflexivity|reflexivity].
+  - split; reflexivity.
+  - destruct (up f); split; reflexivity.
+  - reflexivity.
+  - destruct (vl f x); reflexivity.
+  - intros Hv H0 Hb. rewrite Hv.
+    destruct (N.eqb_spec (p_kind c) 0); [contradiction|]. destruct (N.eqb_spec (p_kind c) c_basic); [contradiction|].
+    reflexivity.
+Qed.
+Print Assumptions c14_closure_dispatch.
+
+(* removing a closure restores the built-in behaviour *)
+Theorem c14_closure_removed_restores :
+  forall (S R : Type) (vp : N -> S -> option N) (rp : N -> S -> R) (ep : N -> S -> S -> option N)
+         (up : N -> R * option N) (mp : N -> R -> option N) (vl : N -> R -> R * option N)
+         (c : pcfg) (s o : S) (x : R),
+    (p_vpf c = None -> Stack_Valid S vp c s = None /\ Cond_Valid S vp c s = VBuiltIn) /\
+    (p_eqf c = None -> Stack_IsEqual S ep c s o = EqBuiltIn /\ Cond_IsEqual S ep c s o = EqBuiltIn) /\
+    (p_umf c = None -> Stack_Unmarshal R up c = UBuiltIn /\ Cond_Unmarshal R up c = UBuiltIn) /\
+    (p_maf c = None -> Stack_Marshal R mp c x = MBuiltIn) /\
+    (p_evl c = None -> Cond_Evaluate R vl c x = EvNone) /\
+    (p_rpf c = None -> Stack_String S R vp rp c s <> Empty -> Stack_String S R vp rp c s = BuiltIn).
+Proof.
+  intros. unfold Stack_Valid, stack_valid, Cond_Valid, Stack_IsEqual, Cond_IsEqual, Stack_Unmarshal, Cond_Unmarshal,
+    Stack_Marshal, Cond_Evaluate, Stack_String, stack_valid.
+  repeat match goal with |- _ /\ _ => split end; intros E; rewrite ?E; try (split; reflexivity); try reflexivity.
+  destruct (_ && _ && _); [reflexivity|contradiction].
+Qed.
+Print Assumptions c14_closure_removed_restores.
+
+(* a Stack its validity closure rejects renders as the empty string; so does
+   every BASIC stack; a BASIC stack refuses a presentation policy and records
+   an error *)
+Theorem c14_invalid_or_basic_renders_empty :
+  forall (S R : Type) (vp : N -> S -> option N) (rp : N -> S -> R) (c : pcfg) (s : S),
+    (stack_valid S vp c s = false \/ p_kind c = c_basic) -> Stack_String S R vp rp c s = Empty.
+Proof.
+  intros S R vp rp c s [H|H]; unfold Stack_String; [rewrite H; reflexivity|].
+  rewrite H, N.eqb_refl. cbn [negb]. rewrite !andb_false_r. reflexivity.
+Qed.
+Print Assumptions c14_invalid_or_basic_renders_empty.
+
+Theorem c14_basic_refuses_presentation :
+  forall (c : pcfg) (f : option N),
+    p_kind c = c_basic -> p_rpf (set_rpf c f) = p_rpf c /\ p_err (set_rpf c f) = true.
+Proof. intros c f H. unfold set_rpf. rewrite H, N.eqb_refl. split; reflexivity. Qed.
+Print Assumptions c14_basic_refuses_presentation.
+
+(* a Condition returns the validity closure's very error, and renders exactly when it is nil *)
+Theorem c14_condition_validity_gates_string :
+  forall (S R : Type) (vp : N -> S -> option N) (rp : N -> S -> R) (c : pcfg) (s : S) (f : N) (bi : bool),
+    p_vpf c = Some f ->
+    Cond_Valid S vp c s = VClosure (vp f s) /\
+    (Cond_String S R vp rp c s bi = Empty <-> vp f s <> None).
+Proof.
+  intros S R vp rp c s f bi H. unfold Cond_String, Cond_Valid. rewrite H. split; [reflexivity|].
+  destruct (vp f s); [split; [discriminate|reflexivity]|].
+  split; [destruct (p_rpf c); discriminate|intros X; contradiction].
+Qed.
+Print Assumptions c14_condition_validity_gates_string.
